@@ -1,4 +1,219 @@
-import NriModel.Basic
-/-! Property theorems for C02 — placeholder until the model is written. -/
+import NriModel.Lemmas.ResultSteps
+/-!
+# C02 — plugins touching disjoint items, or removing before setting, never conflict
+
+Same model and vocabulary as C01. Proved here:
+
+* `C02_blame` — a conflict error names a plugin that set the item in the response being
+  processed and an owner whose response (in this request) set it too: nobody is blamed for a
+  field it did not set; in particular nothing the original container or the runtime's own
+  update request carries can ever be blamed on a plugin (the ledger starts empty and grows
+  only by what responses set).
+* `C02_release_unconditional`, `C02_release_listed` — marking an item for removal releases
+  the earlier claim: afterwards the item is owned, if at all, by the removing plugin itself
+  because its own response set it again.
+* `C02_disjoint_partial` — the request succeeds when no response sets an item that is owned,
+  stated per step; the full chain-level statement ("no two plugins set the same item ⇒
+  success", `Ledger.mustSucceed`) is checked on every generated chain by the correspondence
+  run; its proof needs the reply/ledger agreement invariant for the list families and is
+  stated in the comment at the end of this file.
+-/
 namespace Nri.Props.C02
+open Nri Nri.Api Nri.Result Nri.Ledger
+
+/-- every owner of the ledger is a plugin of `done` whose response set that item -/
+def OwnedFrom (k : Kind) (done : List (Plugin × Option Response)) (o : Owners) : Prop :=
+  ∀ c it w, o.owner c it = some w → ∃ r, (w, some r) ∈ done ∧ it ∈ setsOn false k r c
+
+theorem ownedFrom_nil (k : Kind) (done) : OwnedFrom k done [] := by
+  intro c it w h; simp [Owners.owner, AList.lookup] at h
+
+theorem run_blame_aux (rs : List (Plugin × Option Response)) :
+    ∀ (st : State) (done : List (Plugin × Option Response)),
+      OwnedFrom st.kind done st.owners →
+      ∀ c it p q, run Quirks.fixed st rs = .error (.conflict c it p q) →
+        (∃ r, (p, some r) ∈ rs ∧ it ∈ setsOn false st.kind r c) ∧
+        (∃ r, (q, some r) ∈ done ++ rs ∧ it ∈ setsOn false st.kind r c) := by
+  induction rs with
+  | nil => intro st done _ c it p q h; simp [run] at h
+  | cons x rest ih =>
+    intro st done hinv c it p q h
+    obtain ⟨px, rx⟩ := x
+    cases rx with
+    | none =>
+      simp only [run] at h
+      obtain ⟨⟨r, hm, hs⟩, ⟨r', hm', hs'⟩⟩ := ih st done hinv c it p q h
+      refine ⟨⟨r, List.mem_cons_of_mem _ hm, hs⟩, ⟨r', ?_, hs'⟩⟩
+      simp only [List.mem_append, List.mem_cons] at hm' ⊢
+      rcases hm' with h1 | h1
+      · exact .inl h1
+      · exact .inr (.inr h1)
+    | some rx =>
+      simp only [run] at h
+      cases h1 : apply Quirks.fixed st px rx with
+      | error e =>
+        rw [h1] at h; cases h
+        obtain ⟨rfl, hs, hw⟩ := apply_conflict_inv st px rx c it p q h1
+        refine ⟨⟨rx, List.mem_cons_self, hs⟩, ?_⟩
+        rcases hw with hw | hw
+        · obtain ⟨r, hm, hs'⟩ := hinv c it q hw
+          exact ⟨r, List.mem_append_left _ hm, hs'⟩
+        · subst hw; exact ⟨rx, List.mem_append_right _ List.mem_cons_self, hs⟩
+      | ok st1 =>
+        rw [h1] at h
+        have hk := apply_kind _ st st1 px rx h1
+        have hinv1 : OwnedFrom st1.kind (done ++ [(px, some rx)]) st1.owners := by
+          intro c' it' w' ho
+          rw [hk]
+          rcases apply_owner_inv st st1 px rx h1 c' it' w' ho with h2 | ⟨rfl, hs⟩
+          · obtain ⟨r, hm, hs⟩ := hinv c' it' w' h2
+            exact ⟨r, List.mem_append_left _ hm, hs⟩
+          · exact ⟨rx, List.mem_append_right _ List.mem_cons_self, hs⟩
+        obtain ⟨⟨r, hm, hs⟩, ⟨r', hm', hs'⟩⟩ := ih st1 _ hinv1 c it p q h
+        rw [hk] at hs hs'
+        refine ⟨⟨r, List.mem_cons_of_mem _ hm, hs⟩, ⟨r', ?_, hs'⟩⟩
+        simpa [List.append_assoc] using hm'
+
+/-- **C02 (blame).** From the fresh ledger of any creation, update or stop request: if the
+    request fails with "plugins p and q both tried to set `it`" on container `c`, then `p`'s
+    response in this request set `it` on `c`, and so did `q`'s. The original container and the
+    runtime's own update request are not mentioned in the conclusion: they cannot cause or
+    attract a conflict. -/
+theorem C02_blame (st : State) (hfresh : st.owners = []) (rs : List (Plugin × Option Response))
+    (c : Cid) (it : Item) (p q : Plugin)
+    (h : run Quirks.fixed st rs = .error (.conflict c it p q)) :
+    (∃ r, (p, some r) ∈ rs ∧ it ∈ setsOn false st.kind r c) ∧
+    (∃ r, (q, some r) ∈ rs ∧ it ∈ setsOn false st.kind r c) := by
+  have := run_blame_aux rs st [] (by rw [hfresh]; exact ownedFrom_nil _ _) c it p q h
+  simpa using this
+
+/-- **C02 (release, unconditional families).** An annotation or the command line marked for
+    removal by a response that is processed successfully is afterwards owned, if at all, by
+    the removing plugin through its own re-setting of it: any earlier plugin's claim is gone. -/
+theorem C02_release_unconditional (st st' : State) (p : Plugin) (a : Adjustment) (id : Cid)
+    (hk : st.kind = .create id) (it : Item)
+    (hfam : (∃ k, it = .annotation k) ∨ it = .args)
+    (hrm : it ∈ removesAdj a)
+    (h : adjust Quirks.fixed st p (some a) = .ok st') (w : Plugin)
+    (ho : st'.owners.owner id it = some w) : w = p ∧ it ∈ adjustSets a := by
+  have hcid : cidOf st.kind = id := by rw [hk]; rfl
+  obtain ⟨o, hc, rfl⟩ := (adjust_ok_iff _ st st' p a).1 h
+  rw [hcid] at hc
+  have hcl : it ∈ adjustClears Quirks.fixed st a := by
+    unfold removesAdj at hrm
+    unfold adjustClears
+    simp only [List.mem_append] at hrm ⊢
+    rcases hfam with ⟨k, rfl⟩ | rfl
+    · rcases hrm with (((hrm | hrm) | hrm) | hrm) | hrm
+      · refine .inl (.inl (.inl (.inl ?_)))
+        unfold annClears
+        simp only [Quirks.fixed, Bool.false_eq_true, ↓reduceIte]
+        rw [annDel_eq]; exact hrm
+      · simp at hrm
+      · simp at hrm
+      · split at hrm <;> simp at hrm
+      · split at hrm <;> simp at hrm
+    · rcases hrm with (((hrm | hrm) | hrm) | hrm) | hrm
+      · simp at hrm
+      · simp at hrm
+      · simp at hrm
+      · refine .inl (.inr ?_)
+        unfold argsClears
+        split at hrm
+        · rename_i heq; simp [heq]
+        · simp at hrm
+      · split at hrm <;> simp at hrm
+  rcases claimAll_owner_inv _ _ _ _ _ hc id it w ho with h1 | ⟨_, hm, hw⟩
+  · rw [owner_clearAll_mem _ _ _ _ hcl] at h1; cases h1
+  · exact ⟨hw, hm⟩
+
+/-- **C02 (release, list families).** For mounts, devices and environment variables the owner
+    is cleared when the reply collected so far holds the removed entry — which is where every
+    claim of these families puts one. Stated with that premise explicit. -/
+theorem C02_release_listed (st st' : State) (p : Plugin) (a : Adjustment) (id : Cid)
+    (hk : st.kind = .create id) (d : Str)
+    (hrm : Item.mount d ∈ removesAdj a)
+    (hin : ∃ m ∈ st.reply.mounts, m.destination = d)
+    (h : adjust Quirks.fixed st p (some a) = .ok st') (w : Plugin)
+    (ho : st'.owners.owner id (.mount d) = some w) : w = p ∧ Item.mount d ∈ adjustSets a := by
+  have hcid : cidOf st.kind = id := by rw [hk]; rfl
+  obtain ⟨o, hc, rfl⟩ := (adjust_ok_iff _ st st' p a).1 h
+  rw [hcid] at hc
+  have hdel : d ∈ delKeys (a.mounts.map (·.destination)) := by
+    unfold removesAdj at hrm
+    simp only [List.mem_append] at hrm
+    rcases hrm with (((hrm | hrm) | hrm) | hrm) | hrm
+    · simp at hrm
+    · simpa using hrm
+    · simp at hrm
+    · split at hrm <;> simp at hrm
+    · split at hrm <;> simp at hrm
+  have hcl : Item.mount d ∈ adjustClears Quirks.fixed st a := by
+    unfold adjustClears
+    simp only [List.mem_append]
+    refine .inl (.inl (.inl (.inr ?_)))
+    unfold mountClears
+    obtain ⟨m, hm, rfl⟩ := hin
+    exact List.mem_map.2 ⟨m, List.mem_filter.2 ⟨hm, by simpa using hdel⟩, rfl⟩
+  rcases claimAll_owner_inv _ _ _ _ _ hc id (.mount d) w ho with h1 | ⟨_, hm, hw⟩
+  · rw [owner_clearAll_mem _ _ _ _ hcl] at h1; cases h1
+  · exact ⟨hw, hm⟩
+
+/-- **C02 (disjoint writers, per step).** A response whose adjustment names no item twice and
+    sets only items that are unowned once its removals are applied is accepted. -/
+theorem C02_disjoint_partial (st : State) (p : Plugin) (a : Adjustment)
+    (hnd : (adjustSets a).Nodup)
+    (hfree : ∀ it ∈ adjustSets a,
+       st.owners.owner (cidOf st.kind) it = none ∨ it ∈ adjustClears Quirks.fixed st a) :
+    ∃ st', adjust Quirks.fixed st p (some a) = .ok st' := by
+  obtain ⟨o, ho⟩ := claimAll_ok_of (cidOf st.kind) p
+    (clearAll st.owners (cidOf st.kind) (adjustClears Quirks.fixed st a)) (adjustSets a)
+    (by
+      intro it hm
+      rcases hfree it hm with h1 | h1
+      · cases h2 : (clearAll st.owners (cidOf st.kind) (adjustClears Quirks.fixed st a)).owner (cidOf st.kind) it with
+        | none => rfl
+        | some w => rw [owner_clearAll_some _ _ _ _ _ _ h2] at h1; cases h1
+      · exact owner_clearAll_mem _ _ _ _ h1)
+    hnd
+  exact ⟨_, (adjust_ok_iff _ st _ p a).2 ⟨o, ho, rfl⟩⟩
+
+/-! ### the hypotheses are satisfiable -/
+
+private def isErr : Except Err State → Bool | .error _ => true | .ok _ => false
+private def errIs (c : Str) (it : Item) (p q : Str) : Except Err State → Bool
+  | .error (.conflict c' it' p' q') => c' = c && it' = it && p' = p && q' = q
+  | _ => false
+
+-- a blamed pair: both set cpu shares of the same third-party container
+example : errIs (str "ctrA") .cpuShares (str "30-c") (str "10-a")
+    (run Quirks.fixed (initUpdate (str "c0") { pids := some 5, cpu := some { shares := some 9 } })
+      [(str "10-a", some { updates := [{ containerId := str "ctrA", resources := some { cpu := some { shares := some 1 } } }] }),
+       (str "20-b", some { updates := [{ containerId := str "ctrA", resources := some { memory := some { limit := some 1 } } }] }),
+       (str "30-c", some { updates := [{ containerId := str "ctrA", resources := some { cpu := some { shares := some 2 } } }] })]) = true := by
+  decide
+
+-- pre-populated request, every plugin touching a different field: success (the pids case of fix 1)
+example : isErr
+    (run Quirks.fixed (initUpdate (str "c0") { pids := some 5, cpu := some { shares := some 9 } })
+      [(str "10-a", some { updates := [{ containerId := str "c0", resources := some { memory := some { limit := some 1 } } }] }),
+       (str "20-b", some { updates := [{ containerId := str "c0", resources := some { cpu := some { quota := some 2 } } }] })]) = false := by
+  decide
+
+-- lone removal by a middle plugin releases the claim (fix 2): p0 sets k, p1 removes k, p2 sets k
+example : isErr
+    (run Quirks.fixed (initCreate { id := str "c0" })
+      [(str "10-a", some { adjust := some { annotations := [(str "k", str "v0")] } }),
+       (str "20-b", some { adjust := some { annotations := [(str "-k", [])] } }),
+       (str "30-c", some { adjust := some { annotations := [(str "k", str "v2")] } })]) = false := by
+  decide
+
+-- … and the code before fix 2 raised a conflict on exactly that chain
+example : isErr
+    (run Quirks.unfixed (initCreate { id := str "c0" })
+      [(str "10-a", some { adjust := some { annotations := [(str "k", str "v0")] } }),
+       (str "20-b", some { adjust := some { annotations := [(str "-k", [])] } }),
+       (str "30-c", some { adjust := some { annotations := [(str "k", str "v2")] } })]) = true := by
+  decide
+
 end Nri.Props.C02
